@@ -10,6 +10,7 @@ def encTok (t : List Char) : String := if t.isEmpty then "=" else String.ofList 
 def matRes : MatRes → String
   | .ok rows => "ok " ++ " ".intercalate (rows.map (fun r => toString r.2))
   | .err _ => "parse"
+  | .internal w => "internal " ++ w
 
 def handle (ws : List String) : String :=
   match ws with
@@ -46,10 +47,11 @@ def handle (ws : List String) : String :=
       | .ok s =>
         "ok tns=" ++ ",".intercalate (s.tns.map (fun t => toString t.labels.length)) ++
         " trees=" ++ ",".intercalate (s.treeLists.map toString) ++
-        " mats=" ++ "/".intercalate (s.mats.map (fun m => ".".intercalate (m.map toString)))
+        " mats=" ++ "/".intercalate (s.mats.map (fun m => ".".intercalate (m.map toString))) ++
+        " sets=" ++ "/".intercalate ((List.range s.mats.length).map (fun i =>
+          ".".intercalate ((s.charsets.filter (fun c => c.1 == i)).map (fun c => toString c.2.2))))
       | .error (.parse _) => "parse"
       | .error (.internal w) => "internal " ++ w
-      | .error (.unmodelled _) => "unmodelled"
     | _, _, _, _, _ => "bad-op"
   | _ => "bad-op"
 
